@@ -11,28 +11,32 @@ HARNESSES = [dict(name="ppp", pkg="./pkg/ppp/", test="TestVerifC05", timeout=900
                   files=[("internal/ppp/zz_verif_c05_disp_test.go", "harness/C05/zz_verif_c05_disp_test.go")]),
              # the session layer: a real internal/pppoe SessionState (package pppoe)
              dict(name="sess", pkg="./internal/pppoe/", test="TestVerifC05S", timeout=900,
-                  files=[("internal/pppoe/zz_verif_c05_sess_test.go", "harness/C05/zz_verif_c05_sess_test.go")])]
+                  files=[("internal/pppoe/zz_verif_c05_sess_test.go", "harness/C05/zz_verif_c05_sess_test.go")]),
+             # the other owner of the automata: an internal/l2tp LNS session (package l2tp)
+             dict(name="lns", pkg="./internal/l2tp/", test="TestVerifC05L", timeout=900,
+                  files=[("internal/l2tp/zz_verif_c05_lns_test.go", "harness/C05/zz_verif_c05_lns_test.go")])]
 
 
 def route(case):
     if (case.split() or [""])[0] == "disp":
         return "disp"
-    if (case.split() or [""])[0] == "sess":
-        return "sess"
+    if (case.split() or [""])[0] in ("sess", "lns"):
+        return (case.split() or [""])[0]
     return "ppp_race" if case.startswith("conc ") else "ppp"
 
 
 
 # Every finding of this property is fixed in /repo (d6fc4b1, 488e192, fe05ccf, bbcb995): the model has one variant,
 # what /repo HEAD does; a regression to any of the old defects is a VIOLATION.
-# echo_unfixed: the session layer answers an LCP Echo-Request only in the phases Network/Open instead of whenever
-# LCP is Opened (finding lcp-echo-reply-phase, fixes/C05_lcp_echo_reply_in_opened.patch); differs in kind sess only
-VARIANTS = ["repaired", "echo_unfixed"]
+# Fixed in /repo: d6fc4b1, 488e192, fe05ccf, bbcb995, 1b41d89 (a regression to any of them is a VIOLATION).  Open:
+# lns_down_unfixed = internal/l2tp onLCPDown does not take the NCPs Down (finding lns-lcp-down-ncp-down,
+# fixes/C05_lns_lcp_down_ncp_down.patch); differs from repaired in kind lns only.
+VARIANTS = ["repaired", "lns_down_unfixed"]
 
 
 def signature(case, impl, models):
-    if (case.split() or [""])[0] == "sess" and models.get("echo_unfixed") == impl:
-        return "lcp-echo-reply-phase"
+    if (case.split() or [""])[0] == "lns" and models.get("lns_down_unfixed") == impl:
+        return "lns-lcp-down-ncp-down"
     return None
 # Which Identifiers the originated packets carry is a choice the property leaves free: the model driver reads them
 # (start value id0 and the Identifier of every scr/str/scj) from the implementation's line, runs with that policy and
@@ -373,7 +377,10 @@ def gen_cases(rng, tier, budget):
             for b in B_SET:
                 cases.append(mk("conc", ("2", "1"), p + ["/", "s", a, b]))
     cases += gen_disp(rng, quick)
-    cases += gen_sess(rng, quick)
+    sc = gen_sess(rng, quick)
+    cases += sc
+    # the same histories on the LNS owner (no terminate op there; IPCP requests use the LNS session's address)
+    cases += ["lns" + c[4:] for c in sc if " TERM" not in c][:: (2 if quick else 1)]
     cases.append(mk("fsm", ("d", "d"), ["O", "U"] + ["I12.9.g.2"] * 300 + [RCA, "I2.s.g.0", RCRP, RCA]))
     cases.append(mk("fsm", ("d", "d"), ["O", "U"] + ["I3.c.g.0"] * 260 + [RCRP, RCA]))
     return cases
@@ -496,7 +503,7 @@ def classify_disp(case, impl, model):
 def classify(case, impl, model):
     if (case.split() or [""])[0] == "disp":
         return classify_disp(case, impl, model)
-    if (case.split() or [""])[0] == "sess":
+    if (case.split() or [""])[0] in ("sess", "lns"):
         ops = case.split()[2:]
         a, b = impl.split(), model.split()
         for i in range(max(len(a), len(b))):
@@ -540,7 +547,7 @@ def classify(case, impl, model):
 
 
 def nontrivial(case, out):
-    if (case.split() or [""])[0] == "sess":
+    if (case.split() or [""])[0] in ("sess", "lns"):
         return any(t.split(":")[1] != "-" for t in out.split() if t.count(":") == 1)
     if (case.split() or [""])[0] == "disp":
         return any(t.split(":")[1] != "-" for t in out.split() if t.count(":") == 2)
@@ -550,7 +557,7 @@ def nontrivial(case, out):
 
 def shrink(case):
     t = case.split()
-    if t[0] == "sess":
+    if t[0] in ("sess", "lns"):
         ops = t[2:]
         for k in (len(ops) // 2, len(ops) - 1):
             if 1 < k < len(ops):
@@ -592,8 +599,8 @@ def distribution(cases, impl):
     for c, o in zip(cases, impl):
         t = c.split()
         d["kinds"][t[0]] = d["kinds"].get(t[0], 0) + 1
-        if t[0] == "sess":
-            ds = d.setdefault("session_layer", {"ops": 0, "phases_seen": {}, "opened": 0, "echo_replies": 0,
+        if t[0] in ("sess", "lns"):
+            ds = d.setdefault("session_layer" if t[0] == "sess" else "session_layer_lns", {"ops": 0, "phases_seen": {}, "opened": 0, "echo_replies": 0,
                                                 "link_ended": 0, "chap": 0})
             for tok in (o or "").split():
                 if tok.count(":") != 1:
